@@ -109,10 +109,10 @@ ACTIONS = [
    ("errMismatch", "(errMismatch \\/ err # experr)")], []),
  ("ObsTimerCall", "t, id, v, inert", "thread t calls Timer.Record(v) on timer id (inert: the timer belongs to the no-op scope, which delivers nothing)",
   [("timerOpen", "Put(timerOpen, t, [id |-> id, v |-> v, seen |-> IF inert THEN 1 ELSE 0])")], []),
- ("ObsDeliverTimer", "t, id, v", "the reporter received a timer value on thread t",
+ ("ObsDeliverTimer", "t, id, v, wrongpath", "the reporter received a timer value on thread t (wrongpath: through the plain reporter although the root also has a cached one, whose handle takes precedence)",
   [("timerLog", "Append(timerLog, <<id, v>>)"),
    ("timerOpen", "IF t \\in DOMAIN timerOpen /\\ timerOpen[t].id = id /\\ timerOpen[t].v = v /\\ timerOpen[t].seen = 0\n                  THEN [timerOpen EXCEPT ![t].seen = 1] ELSE timerOpen"),
-   ("timerBad", "(timerBad \\/ ~(t \\in DOMAIN timerOpen /\\ timerOpen[t].id = id /\\ timerOpen[t].v = v /\\ timerOpen[t].seen = 0))")], []),
+   ("timerBad", "(timerBad \\/ wrongpath \\/ ~(t \\in DOMAIN timerOpen /\\ timerOpen[t].id = id /\\ timerOpen[t].v = v /\\ timerOpen[t].seen = 0))")], []),
  ("ObsTimerReturn", "t", "Timer.Record returned to thread t",
   [("timerBad", "(timerBad \\/ t \\notin DOMAIN timerOpen \\/ timerOpen[t].seen # 1)"),
    ("timerOpen", "[x \\in DOMAIN timerOpen \\ {t} |-> timerOpen[x]]")], []),
